@@ -243,3 +243,44 @@ BOUNDS["quick"]["FileSet.match"] = ("1 x 1, 1 x 2, 2 x 1 files with arbitrary wh
 BOUNDS["thorough"]["FileSet.match"] = "adds 2 x 2 and 1 x 3"
 OUTSIDE.append("FileSet.match with sub-second coverages (the code compares whole seconds) and with directory trees (C01)")
 STUBS.append("FileSet.match: ModelFS, symbolic coverages through the info cache, symbolic datetimes")
+
+
+# ---- FileSet.match over an open period ----------------------------------------------------------------
+@harness("C03.match-open", cases=lambda tier: ["no-start", "no-end", "neither", "min-max"],
+         expect=lambda c: ["open-period-matches-like-an-unbounded-one"])
+def k_match_open(ctx):
+    """match(other, start, end, max_interval) with start and / or end omitted (or given as datetime.min /
+    datetime.max, as collocate_filesets does for an omitted start / end): the open side is unbounded."""
+    kind = ctx.case
+    mfs = ModelFS(ctx, max_faults=0)
+    with sym_env(ctx, WIN):
+        a, fa = _fileset(ctx, "prim", 1, mfs)
+        b, fb = _fileset(ctx, "sec", 1, mfs)
+        start, end = _sec_dt(ctx, "start"), _sec_dt(ctx, "end")
+        ctx.assume(start < end)
+        mi_s = ctx.int("max_interval_s", 0, 2 * 86400)
+        mi = ST.SymTD(mi_s * 10 ** 6) if ctx.sym else timedelta(seconds=int(mi_s))
+        s_arg = {"no-start": None, "neither": None, "min-max": datetime.min}.get(kind, start)
+        e_arg = {"no-end": None, "neither": None, "min-max": datetime.max}.get(kind, end)
+        try:
+            res = list(a.match(b, s_arg, e_arg, max_interval=mi))
+        except F.NoFilesError:
+            res = []
+        got = {r[0].path: [m.path for m in r[1]] for r in res}
+        tag = "open-period-matches-like-an-unbounded-one"
+        (p, t0, t1), (q, u0, u1) = fa[0], fb[0]
+        conds = []
+        if s_arg is start:
+            conds += [t1 >= start - mi, u1 >= start - mi]
+        if e_arg is end:
+            conds += [t0 < end + mi, u0 < end + mi]
+        conds.append(And(u0 - mi <= t1, u1 + mi >= t0) if ctx.sym else (u0 - mi <= t1 and u1 + mi >= t0))
+        exp = And(*conds) if ctx.sym else all(bool(c) for c in conds)
+        ctx.check(tag, (exp if p in got else Not(exp)) if ctx.sym else (bool(exp) == (p in got)), detail="%s yielded=%r" % (p, p in got))
+        if p in got:
+            ctx.check(tag, got[p] == [q])
+
+
+PLAN["quick"]["harnesses"].append("C03.match-open")
+PLAN["thorough"]["harnesses"].append("C03.match-open")
+BOUNDS["quick"]["FileSet.match, open period"] = "1 x 1 files, start / end omitted or given as datetime.min / datetime.max, any max_interval of 0 .. 2 days"
